@@ -215,7 +215,7 @@ func c07Msg(body []byte, ver consts.ProtocolVersionType) *jt808.JTMessage {
 	return m
 }
 
-func c07One(c *core.Collector, tc gen.TCase) {
+func c07One(c *core.Collector, tc gen.TCase) (held bool) {
 	c.Eval()
 	var enc []byte
 	w := func() any {
@@ -245,8 +245,60 @@ func c07One(c *core.Collector, tc gen.TCase) {
 			c.Violate("roundtrip|"+sigType+"|re-encoding differs", tc.Name+": Encode(Parse(Encode(v))) != Encode(v): "+core.HexCap(enc, 60)+" vs "+core.HexCap(re, 60), w())
 			return
 		}
+		held = true
 		if c.WantSample() && tc.ID%7 == 3 {
 			c.Sample(map[string]any{"type": tc.Name, "encoded": core.HexCap(enc, 48)})
+		}
+	})
+	return held
+}
+
+// c07Reused: Parse(Encode(v)) into a receiver that first parsed priorEnc (the encoding of another in-domain value of the same
+// type and variant) must still yield v, and re-encode to the same bytes.
+func c07Reused(c *core.Collector, tc gen.TCase, priorEnc []byte) {
+	c.Eval()
+	var enc []byte
+	w := func() any {
+		return map[string]any{"type": tc.Name, "header_version": int(tc.Ver), "value": trunc(Canon(reflect.ValueOf(tc.Val), canonSkip), 1500), "encoded": core.HexCap(enc, 300), "receiver_parsed_before": core.HexCap(priorEnc, 300)}
+	}
+	guard(c, w, func() {
+		before := Canon(reflect.ValueOf(tc.Val), canonSkip)
+		enc = tc.Val.Encode()
+		p := tc.Mk()
+		if err := p.Parse(c07Msg(priorEnc, tc.Ver)); err != nil {
+			return // the prior value's encoding is judged by c07One
+		}
+		if err := p.Parse(c07Msg(enc, tc.Ver)); err != nil {
+			c.Violate("roundtrip|"+tc.Type+"|parse of own encoding fails on a used receiver: "+core.NormPanic(err.Error()), tc.Name+": Parse(Encode(v)) on a receiver that had parsed another value returned "+err.Error(), w())
+			return
+		}
+		after := Canon(reflect.ValueOf(p), canonSkip)
+		if before != after {
+			fld := DiffPath(reflect.ValueOf(tc.Val), reflect.ValueOf(p), canonSkip)
+			c.Violate("roundtrip|"+tc.Type+"|value differs on a used receiver at "+fld, tc.Name+": Parse(Encode(v)) into a receiver that had parsed another value != v: "+diffAt(before, after), w())
+			return
+		}
+		if re := p.Encode(); !bytes.Equal(re, enc) {
+			c.Violate("roundtrip|"+tc.Type+"|re-encoding differs on a used receiver", tc.Name+": "+core.HexCap(enc, 60)+" vs "+core.HexCap(re, 60), w())
+		}
+		c.Count("round_trips_on_used_receivers", 1)
+		// and the other way round: an object that was a Parse receiver before, then given v's field values one by one (what
+		// application code does when it reuses a message object for sending), encodes like v
+		q := tc.Mk()
+		if q.Parse(c07Msg(append([]byte{}, priorEnc...), tc.Ver)) != nil {
+			return
+		}
+		qv, vv := reflect.ValueOf(q), reflect.ValueOf(tc.Val)
+		if qv.Kind() == reflect.Ptr && vv.Kind() == reflect.Ptr && qv.Elem().Type() == vv.Elem().Type() && qv.Elem().Kind() == reflect.Struct {
+			t := qv.Elem().Type()
+			for i := 0; i < t.NumField(); i++ {
+				if t.Field(i).PkgPath == "" && qv.Elem().Field(i).CanSet() {
+					qv.Elem().Field(i).Set(vv.Elem().Field(i))
+				}
+			}
+			if qe := q.Encode(); !bytes.Equal(qe, enc) {
+				c.Violate("roundtrip|"+tc.Type+"|an object that was parsed into before and then assigned the value's fields encodes differently", tc.Name+": "+core.HexCap(enc, 60)+" vs "+core.HexCap(qe, 60), w())
+			}
 		}
 	})
 }
@@ -261,8 +313,22 @@ func c07Bodies(c *core.Collector, x *Ctx) {
 	core.ParallelFor(n, ncpu(), func(i int) {
 		g := gen.G{Rand: core.NewRand(c.Seed, "c07", uint64(i))}
 		cases := gen.Cases(g)
+		freshHeld := map[string]bool{}
 		for _, tc := range cases {
-			c07One(c, tc)
+			freshHeld[tc.Name] = c07One(c, tc)
+		}
+		// the same law on a receiver that has parsed something else before (a handler object kept per connection): the value
+		// parsed from Encode(v) is v whatever the receiver held — another value of the same type, its short forms, itself
+		if i%2 == 0 {
+			prior := map[string][]byte{}
+			for _, tc := range gen.Cases(gen.G{Rand: core.NewRand(c.Seed, "c07prior", uint64(i))}) {
+				prior[tc.Name] = tc.Val.Encode()
+			}
+			for _, tc := range cases {
+				if pe, ok := prior[tc.Name]; ok && !tc.Side && freshHeld[tc.Name] { // (a value that fails on a fresh receiver is reported once, there)
+					c07Reused(c, tc, pe)
+				}
+			}
 		}
 		if i == 0 {
 			<-tmu
